@@ -250,7 +250,10 @@ func (r c12hdrRef) next(s []byte, pos int) c12exp {
 		case c == r.mime:
 			e.ct = c12ctNone
 		case r.mime == "":
-			e.ct = c12ctEither // "no content type expected", but one is present
+			// no content type is expected and one is present: "an error will still be
+			// reported if a content-type is set but does not match" (Header), "does not
+			// match the expected value" (StrictHeader) - no non-empty type matches ""
+			e.ct = c12ctMust
 		case c == "":
 			// present but empty: for Header/LSP it is open whether this counts as omitted
 			e.ct = c12ctEither
